@@ -50,8 +50,6 @@ def FA := floatArith
 
 def errStr (e : Err) : Res := .err e.toString
 
-def stamps (c : Case) : List Stamp := (List.range c.pts.length).map (fun i => ⟨0, locOf c.reloc i⟩)
-
 def recsOf {β} (c : Case) (f : FCell → β) : List (Rec β) :=
   (c.pts.zip (List.range c.pts.length)).map (fun ((t, v), i) => ⟨⟨t, locOf c.reloc i⟩, f v⟩)
 
